@@ -78,8 +78,10 @@ Definition op_text (o : cmpop) : list N :=
   match o with OEq => [61; 61] | ONe => [33; 61] | OLt => [60] | OLe => [60; 61] | OGt => [62] | OGe => [62; 61] end.
 Definition cmp_text (isteps : list rstep) (o : cmpop) (lit : list N) : list N :=
   [91; 63; 40; 64] ++ render_steps isteps ++ op_text o ++ lit ++ [41; 93].
-Inductive fstep := FS (x : rstep) | FE (isteps : list rstep) | FC (isteps : list rstep) (o : cmpop) (lit : list N).
+(* a negated existence filter [?(!@ steps)] *)
+Definition neg_text (isteps : list rstep) : list N := [91; 63; 40; 33; 64] ++ render_steps isteps ++ [41; 93].
+Inductive fstep := FS (x : rstep) | FE (isteps : list rstep) | FC (isteps : list rstep) (o : cmpop) (lit : list N) | FN (isteps : list rstep).
 Definition render_fstep (x : fstep) : list N :=
-  match x with FS y => render_rstep y | FE i => filt_text i | FC i o lit => cmp_text i o lit end.
+  match x with FS y => render_rstep y | FE i => filt_text i | FC i o lit => cmp_text i o lit | FN i => neg_text i end.
 Definition render_fsteps (l : list fstep) : list N := flat_map render_fstep l.
 Definition fchain_path (l : list fstep) : list N := 36 :: render_fsteps l.
